@@ -214,6 +214,33 @@ def write_atoms_tla():
     return p
 
 
+def integer_factor_units(scanned_units, tab=None, allowed=(1000, 60, 10000, 1000000)):
+    """unit type -> (unit name, integer SI magnitude) for the first unit whose symbol denotes one of the allowed integer factors
+    (derived from the symbol through the atom table, not from the conversion code)."""
+    tab = tab or AtomTable()
+    out = {}
+    for u in scanned_units:
+        src = open(os.path.join(os.environ.get('PHQ_ROOT', '/repo'), 'include', 'PhQ', 'Unit', u['header']), encoding='utf-8').read()
+        ab = re.search(r'Abbreviations<\s*Unit::\w+>\s*\{(.*?)\n\s*\};', src, re.S)
+        if not ab:
+            continue
+        best = None
+        for name, a in re.findall(r'\{Unit::\w+::(\w+),\s*"([^"]*)"', ab.group(1)):
+            toks = tab.tokenize(a, u['type'])
+            if toks is None or u['type'] == 'Temperature':
+                continue
+            m = A()
+            for at, e in toks:
+                m = m.mul(tab.atoms[at], e)
+            if m.k == 0 and m.q.denominator == 1 and int(m.q) in allowed:
+                cand = (allowed.index(int(m.q)), name, int(m.q))
+                if best is None or cand < best:
+                    best = cand
+        if best:
+            out[u['type']] = (best[1], best[2])
+    return out
+
+
 def norm_model(s):
     return re.sub(r'[ _]', '', s).lower()
 
